@@ -311,6 +311,11 @@ func (s *Sched) spawn(name string, f func()) *thread {
 // execution run synchronously (deterministic sequential mode for engines B/C).
 var InlineGo bool
 
+// DropGo makes instrumented `go` statements executed outside a controlled
+// execution start nothing (used where the only such statement is a timer loop
+// whose effect the harness triggers explicitly).
+var DropGo bool
+
 // Go starts f as a new scheduled thread when called from a thread, and as a
 // plain goroutine otherwise.
 func Go(f func()) { GoNamed("", f) }
@@ -319,6 +324,9 @@ func Go(f func()) { GoNamed("", f) }
 func GoNamed(name string, f func()) {
 	s, t := self()
 	if t == nil {
+		if DropGo {
+			return // the harness owns what this background task would do (e.g. a periodic flush it triggers itself)
+		}
 		if InlineGo {
 			f() // sequential mode of engines B/C: the spawned body runs to completion at the spawn point
 			return
